@@ -30,7 +30,7 @@ def corpus():
         "run prop=C05 mode=constant rate=2/100ms dur=1500 conc=8 body=600 timeout=1000 retmin=1900",           # run longer than the completion timeout
         "run prop=C05 mode=users dur=300 conc=2 block=2 timeout=300 retmax=2500",          # D21: users mode and an iteration that never returns
         "run prop=C05 mode=users dur=400 conc=3 block=1 timeout=500 retmax=2900",
-        "run prop=C05 mode=file dur=2000 conc=2 file=u:300:2 block=2 timeout=300",         # the same in a users *stage* of a config file: known finding
+        "run prop=C05 mode=file dur=2000 conc=2 file=u:300:2 block=2 timeout=300 retmax=2500",   # D21b: the same in a users *stage* of a config file
         "run prop=C05 mode=constant rate=5/100ms dur=10 conc=4 body=1",
         "run prop=C05 mode=staged stages=0s:3,300ms:3 freq=100 dist=none dur=5000 conc=4 body=10 retmax=3500",
         "run prop=C05 mode=constant rate=3/100ms dur=900 conc=3 body=20 cancel=250",
@@ -120,11 +120,3 @@ MANIFEST = {
  "note": "Partial by nature: real timers, the scheduler's fairness and goroutine exit are assumed and monitored on real runs (exploration in support); the deadline clause is proved on the timed model of the two selects (environment inputs: cancel instant, limit instant, drain function) and tied by stall-robust time bounds on real runs (150 ms / 1 s margins), so a shift of a few ms in the real code is only caught by the 10 ms-run case and the regenerated source of run().",
  "technique": "Lean 4 deadlock-freedom by inductive invariant + termination measure over a lock-protocol model; whole-run monitoring with scripted interleavings"}
 
-
-def signature(rec):
-    """known finding D21b: a users stage of a config file whose iteration never returns keeps the run from returning"""
-    c = rec["case"]
-    if c.startswith("run ") and " mode=file " in c and " block=" in c and re.search(r" file=(\S*;)?u:", c) \
-            and rec.get("impl", "").startswith("never-returned"):
-        return "C05:file-users-stage:blocked-iteration"
-    return c
